@@ -151,8 +151,9 @@ class Ref:
         if k == 'tr':
             return P.tr(z3.StringVal(e[1])), 'QString'
         if k == 'arr':
-            vals = [self.ev(x, p, sc, 'QString')[0] for x in e[1]]
-            return ListVal(z3.IntVal(len(vals)), vals), ('QStringList' if vals else 'cempty')
+            et = t[5:] if t.startswith('list:') else 'QString'
+            vals = [self.ev(x, p, sc, et)[0] for x in e[1]]
+            return ListVal(z3.IntVal(len(vals)), vals), (t if vals else 'cempty')
         ct = L.conc(t)
         if k == 'cast':
             if e[2] == 'void':
